@@ -5,6 +5,8 @@ import PasetoModel.Backend
 import PasetoModel.Asym
 import PasetoModel.PaserkInst
 import PasetoModel.Rng
+import PasetoModel.Types
+import PasetoModel.Features
 /-! Line-protocol driver: executes the model's definitions (the ones the theorems are about) on
     the operation lines produced by the harness.  One result line per operation line. -/
 open PM
@@ -106,6 +108,34 @@ def donorParams (be : Backend) (kind : SKind) (donor : Bytes) : Res Bytes :=
     if blob.length < S.prefixLen then .err .invalidKey
     else .ok ((blob.drop S.saltLen).take S.paramLen)
 
+def purposeOf? (s : String) : Option Purpose := (Kind.ofString? s).bind Kind.toPurpose?
+
+/-- the typing model's verdict for one catalogue entry -/
+def tyOp (name : String) (a : List String) : Option Types.TOp :=
+  match name, a with
+  | "seal", [tv, p, kv, kk] => do some (.sealTok (← Backend.ofString? tv) (← purposeOf? p) (← Backend.ofString? kv) (← Kind.ofString? kk))
+  | "unseal", [tv, p, kv, kk] => do some (.unsealTok (← Backend.ofString? tv) (← purposeOf? p) (← Backend.ofString? kv) (← Kind.ofString? kk))
+  | "encrypt", [tv, p, kv, kk] => do some (.encrypt (← Backend.ofString? tv) (← purposeOf? p) (← Backend.ofString? kv) (← Kind.ofString? kk))
+  | "decrypt", [tv, p, kv, kk] => do some (.decrypt (← Backend.ofString? tv) (← purposeOf? p) (← Backend.ofString? kv) (← Kind.ofString? kk))
+  | "sign", [tv, p, kv, kk] => do some (.sign (← Backend.ofString? tv) (← purposeOf? p) (← Backend.ofString? kv) (← Kind.ofString? kk))
+  | "verify", [tv, p, kv, kk] => do some (.verify (← Backend.ofString? tv) (← purposeOf? p) (← Backend.ofString? kv) (← Kind.ofString? kk))
+  | "wrapPie", [v, k, wv, wk] => do some (.wrapPie (← Backend.ofString? v) (← Kind.ofString? k) (← Backend.ofString? wv) (← Kind.ofString? wk))
+  | "sealKey", [v, k, wv, wk] => do some (.sealKey (← Backend.ofString? v) (← Kind.ofString? k) (← Backend.ofString? wv) (← Kind.ofString? wk))
+  | "pwWrap", [v, k] => do some (.pwWrap (← Backend.ofString? v) (← Kind.ofString? k))
+  | "displayKey", [v, k] => do some (.displayKey (← Backend.ofString? v) (← Kind.ofString? k))
+  | "debugKey", [v, k] => do some (.debugKey (← Backend.ofString? v) (← Kind.ofString? k))
+  | "serializeKey", [v, k] => do some (.serializeKey (← Backend.ofString? v) (← Kind.ofString? k))
+  | "exposeKey", [v, k] => do some (.exposeKey (← Backend.ofString? v) (← Kind.ofString? k))
+  | "publicKey", [v, k] => do some (.publicKey (← Backend.ofString? v) (← Kind.ofString? k))
+  | "keyId", [v, k] => do some (.keyId (← Backend.ofString? v) (← Kind.ofString? k))
+  | "displaySealed", [v, p] => do some (.displaySealed (← Backend.ofString? v) (← purposeOf? p))
+  | "displayUnsealed", [v, p] => do some (.displayUnsealed (← Backend.ofString? v) (← purposeOf? p))
+  | "serializeUnsealed", [v, p] => do some (.serializeUnsealed (← Backend.ofString? v) (← purposeOf? p))
+  | "fieldFooter", [_] => some .fieldFooter
+  | "fieldPayload", [_] => some .fieldPayload
+  | "unverifiedFooter", [_] => some .unverifiedFooter
+  | _, _ => none
+
 def parsePieces (s : String) : Option (List (List Bytes)) :=
   if s == "." then some [] else
   (s.splitOn "/").mapM (fun p =>
@@ -127,6 +157,14 @@ def optRes {α} (o : Option α) : Except Unit α := match o with | some a => .ok
 def step (line : String) : Option String :=
   let t := line.splitOn " "
   match t with
+  | ["feat", crate, mask] => do
+      let m ← mask.toNat?
+      let F ← (match crate with
+        | "paseto-v1" => some Extracted.Feat.paseto_v1 | "paseto-v2" => some Extracted.Feat.paseto_v2
+        | "paseto-v3" => some Extracted.Feat.paseto_v3 | "paseto-v4" => some Extracted.Feat.paseto_v4 | _ => none)
+      some s!"ok builds={if Feat.consistent F m then 1 else 0}"
+  | "ty" :: name :: args => (tyOp name args).map fun op =>
+      s!"ok {if Types.typechecks op then "accept" else "reject"} policy={if Types.allowed op then "accept" else "reject"}"
   | ["pae", ps] => do
       let ps ← parsePieces ps
       some ("ok " ++ toHex (pae ps))
